@@ -34,9 +34,27 @@ def run(seed):
         shutil.rmtree(os.path.join(VERIF, ".build-" + hashlib.sha1(wt.encode()).hexdigest()[:8]), ignore_errors=True)
     return res
 
-seeds = sorted(s for s in os.listdir(os.path.join(VERIF, "seeded")) if os.path.isdir(os.path.join(VERIF, "seeded", s)) and not s.startswith("_"))
+seeds = sorted(s for s in os.listdir(os.path.join(VERIF, "seeded")) if os.path.exists(os.path.join(VERIF, "seeded", s, "meta.json")))
+# results are appended to a journal as they come in, so that an interrupted run can be resumed
+JOURNAL = os.path.join(VERIF, ".build", f"matrix.{tier}.jsonl")
+os.makedirs(os.path.dirname(JOURNAL), exist_ok=True)
+have = {}
+if os.path.exists(JOURNAL) and os.environ.get("MATRIX_RESUME"):
+    for l in open(JOURNAL):
+        r = json.loads(l); have[r["seed"]] = r
+import threading
+jl = threading.Lock()
+def run_j(seed):
+    if seed in have:
+        return have[seed]
+    r = run(seed)
+    with jl, open(JOURNAL, "a") as f:
+        f.write(json.dumps(r) + "\n")
+    return r
+if not os.environ.get("MATRIX_RESUME") and os.path.exists(JOURNAL):
+    os.remove(JOURNAL)
 with cf.ThreadPoolExecutor(jobs) as ex:
-    results = list(ex.map(run, seeds))
+    results = list(ex.map(run_j, seeds))
 head = subprocess.run(["git", "-C", "/repo", "rev-parse", "--short", "HEAD"], capture_output=True, text=True).stdout.strip()
 lines = [f"# Seeded changes vs checks ({tier} tier) on /repo at {head}", "", "exit 1 = violation reported (caught), 0 = held (missed), 2 = no verdict", "", "| seeded change | own property | other checks | note |", "|---|---|---|---|"]
 caught = 0
